@@ -214,9 +214,12 @@ def xmdeterm(x, func=np.linalg.det):
         x.shape
     )
     try:
-        return np.around(func(x.astype(float)), 15).view(Array)
+        res = np.around(func(x.astype(float)), 15)
     except np.linalg.LinAlgError:
         return Error.errors['#NUM!']
+    if not np.isfinite(res).all():  # Overflow.
+        return Error.errors['#NUM!']
+    return res.view(Array)
 
 
 FUNCTIONS['MDETERM'] = wrap_func(xmdeterm)
